@@ -12,6 +12,7 @@ import Vegeta.Proofs.StreamCut
 import Vegeta.Proofs.CodecJSONResult
 import Vegeta.Proofs.CodecCSVResult
 import Vegeta.Proofs.CodecRFC3339
+import Vegeta.Proofs.GobValueResult
 import Vegeta.Extracted.Facts
 namespace Vegeta.Props.C09
 open Vegeta.Go Vegeta.Model.Codec Vegeta.Model.GobFrame Vegeta.Proofs.GobFrame Vegeta.Proofs.Codec
@@ -45,6 +46,35 @@ theorem frame_prefix_exact (fs : List Bytes) (k : Nat) :
 /-- the uncut stream: all frames, then end-of-stream -/
 theorem frames_complete_stream (fs : List Bytes) (hfs : ∀ f ∈ fs, f.length < tooBig) :
     parseFrames (encodeFrames fs) = (fs, .eof) := parseFrames_encodeFrames fs hfs
+
+/-! ### gob at record level (value encoding modelled in Model/GobValue.lean) -/
+
+section GobRecords
+open Vegeta.Model.GobValue Vegeta.Proofs.Gob
+
+/-- **gob_cut_prefix**: for every sequence of results of the gob domain, the stream (four type-definition
+messages, then one value message per result) cut after ANY number of bytes `k` decodes to exactly the
+results whose value message lies wholly before the cut — `cutFrames` counts the complete messages, the
+first four carry no result — then io.EOF if the cut falls between two records (or at offset 0), else an
+error (io.ErrUnexpectedEOF); never a result that was not written, never a partly filled one. -/
+theorem gob_cut_prefix (z : Zone) (rs : List Result) (hz : ZoneOK z) (hrs : ∀ r ∈ rs, ReprGobResult z r) (k : Nat) :
+    ∃ ps, valueFrames z rs = some ps ∧ ps.length = rs.length ∧
+      decodeGob ((encodeFrames (preFrames ++ ps)).take k) =
+        ((rs.map gobDecoded).take ((cutFrames (preFrames ++ ps) k).1.length - 4),
+         gobTerm (cutFrames (preFrames ++ ps) k).1 (cutFrames (preFrames ++ ps) k).2 true) :=
+  decodeGob_cut z rs hz hrs k
+
+/-- each `Encode` call hands the writer whole messages: the type definitions (first call only) and the
+value message of the result -/
+theorem gob_encode_emits_whole_records (z : Zone) (first : Bool) (r : Result) (b : Bytes)
+    (h : encodeGobCall z first r = some b) :
+    ∃ p, valuePayload z r = some p ∧ b = (if first then preamble else []) ++ encodeFrame p := by
+  unfold encodeGobCall at h
+  cases hp : valuePayload z r with
+  | none => simp [hp] at h
+  | some p => simp [hp] at h; exact ⟨p, rfl, h.symm⟩
+
+end GobRecords
 
 /-! ### JSON: one line per record -/
 
